@@ -241,6 +241,8 @@ def run(ctx):
                    f"uses of the event reference reachable after the callback: {sorted(set(uses))[:6]}" if uses else
                    "nothing derived from the event reference is used after the callback")
 
+    endpoint_no_use_after_finish(ctx, prog, "R8.no-event-access-after-wake", EV)
+
     # ---------------- R3
     for name, b in sorted(fn.items()):
         acc = cell_accesses(b)
@@ -391,3 +393,37 @@ def run(ctx):
         sets = [o for o in state_ops(b) if o["op"] in ("set", "replace")]
         ok = len(wr) == 1 and bool(sets) and all(wr[0]["bb"] in dom[o["bb"]] for o in sets)
         ctx.ob("R7.state-guards-cell", "value.write<state.set", ok, b.loc(), "the payload is written before the state is changed")
+
+
+def endpoint_no_use_after_finish(ctx, prog, rid, event_prefix, finish=("set", "sender_dropped_without_set")):
+    """Callers of the sender's finishing transitions (the endpoint layer): once `set` / `sender_dropped_without_set` has returned the
+    receiver may already have released the storage (its waker ran inside the call), so the only things the caller may still do
+    with its event reference are `release_event` (when the call granted the cleanup) and dropping the reference object itself."""
+    from ..analysis import who_calls as _who
+    ALLOWED = {"release_event", "drop_in_place", "drop"}
+    n = 0
+    for b, bb, t in _who(prog, *[event_prefix + f for f in finish]):
+        if b.key.startswith(event_prefix.rstrip(":")) or b.blocks[bb].cleanup:
+            continue
+        n += 1
+        ctx.fn(b)
+        after = b.reachable(b.term_succ(bb, False), unwind=False)
+        uses = []
+        for a in sorted(after):
+            blk = b.blocks[a]
+            if blk.cleanup or blk.term["k"] != "call":
+                continue
+            t2 = blk.term
+            m = t2["callee"].get("method") or callee_key(t2["callee"]).split("::")[-1]
+            for o in t2["args"]:
+                sl = Slice(b, through_calls=False).run(o)
+                if any(f.endswith("::event_ref") for f in sl["fields"]):
+                    if m not in ALLOWED:
+                        uses.append(f"{m}@{b.loc(t2['span'])}")
+                    break
+        fname = callee_key(t["callee"]).split("::")[-1]
+        ctx.ob(rid, f"{b.key.split('::core::')[-1]}->{fname}", not uses, b.loc(t["span"]),
+               f"uses of the event reference after {fname}() returned, other than release_event / dropping the reference: {sorted(set(uses)) or 'none'}"
+               + (" - the receiver's waker ran inside that call and may have released the storage" if uses else ""))
+    if n == 0:
+        ctx.missing(rid, f"endpoint callers of {event_prefix}{{{', '.join(finish)}}}")
